@@ -49,6 +49,10 @@ func hC02seq(n, prefix, L, vlen int) {
 			vAssert(len(nm) < 4 || nm[len(nm)-4:] != recoveryBackupExt, tag+".no-recovery")
 		}
 		checkReads(db, r, tag)
+		// the directory holds nothing but what the reopened database refers to, and
+		// appends will go to the newest segment
+		vCheckDirSoft(db, tag)
+		vCheckLogInvariant(db, tag)
 		return true
 	}
 	for step := 0; step < L; step++ {
